@@ -18,6 +18,7 @@
      "mem_raises"  _setup_log_elements raises TypeError at a raw-memory variable (code as found, repaired since)
      "partial_resolve"  add_config appends the default-typed names before the first one missing from the table
                    and keeps default_fetch_as when it raises KeyError (code as found)
+     "size_by_stored"   payload size summed from the stored types (seeded)
      "reset_when_accepted", "stale_layout"   seeded defects around configurations that change / are re-added
      "skip_on_split", "size_lt", "period_le_255", "optimistic_start", "ack_any_block",
      "start_on_error", "slice_by_stored"   seeded defects (vacuity guards)
@@ -192,7 +193,7 @@ SendAll(d, inj, msgs, kinds) ==
              acks |-> <<[cmd |-> m[1], id |-> m[2], st |-> h.st]>> \o r.acks]
 
 \* ------------------------------------------------------------------ Log.add_config
-SizeOf(vs) == P!SeqSum([j \in DOMAIN vs |-> P!TypeSize(vs[j].f)])
+SizeOf(vs) == P!SeqSum([j \in DOMAIN vs |-> P!TypeSize(IF Has("size_by_stored") /\ vs[j].k = "mem" THEN vs[j].s ELSE vs[j].f)])
 FirstMissing(names) == IF \E j \in DOMAIN names : ~P!InToc(toc, names[j])
                        THEN CHOOSE j \in DOMAIN names : ~P!InToc(toc, names[j]) /\
                                                          \A k \in 1..(j - 1) : P!InToc(toc, names[k])
